@@ -59,6 +59,7 @@ type Case struct {
 	Gate       int    `json:",omitempty"`
 	Layers     int    `json:",omitempty"`
 	XGraph     bool   `json:",omitempty"` // graph from imgen.RandomX: inline data, OCI artifact manifests, schema1
+	RefTgt     bool   `json:",omitempty"` // referrers go to another repository of the target registry (ImageWithReferrerTgt); one referrer shares a blob with the image
 }
 
 type world struct {
@@ -107,6 +108,16 @@ func build(c Case, dir string) (*world, error) {
 			w.g = imgen.RandomX(r, uniq)
 		} else {
 			w.g = imgen.Random(r, uniq)
+		}
+	}
+	if c.RefTgt && w.g.Root != nil { // a referrer of the image that lists one of the image's own blobs (an attestation embedding a layer)
+		clo0 := imgen.Closure(w.g.Root, false)
+		for _, d := range imgen.SortedDigests(clo0) {
+			if n := clo0[d]; n.Kind == "blob" {
+				cfg := w.g.Blob([]byte("{}"), "application/vnd.oci.empty.v1+json")
+				w.g.Refs = append(w.g.Refs, w.g.Image(false, cfg, []*imgen.Node{n}, nil, w.g.Root, uniq+"-shared-ref"))
+				break
+			}
 		}
 	}
 	feat := memreg.Features{Delete: true, TagDelete: true, MountGrant: c.Mount, NoHeadDigest: c.NoHeadDig, ReferrersAPI: c.RefAPI, ValidateChildren: false}
@@ -372,6 +383,25 @@ func (w *world) tgtHas(d string) ([]byte, bool) {
 	b, err := os.ReadFile(filepath.Join(w.tgtDir, "blobs", d[:i], d[i+1:]))
 	return b, err == nil
 }
+// refHas: the place the referrers were sent to
+func (w *world) refHas(c Case, d string) ([]byte, bool) {
+	if !c.RefTgt {
+		return w.tgtHas(d)
+	}
+	w.tgt.Lock()
+	defer w.tgt.Unlock()
+	rp := w.tgt.Repos[w.tgtRepo+"-refs"]
+	if rp == nil {
+		return nil, false
+	}
+	if b, ok := rp.Blobs[d]; ok {
+		return b, true
+	}
+	if m, ok := rp.Manifests[d]; ok {
+		return m.Body, true
+	}
+	return nil, false
+}
 func (w *world) tgtTag() string {
 	if w.tgtIsReg() {
 		t := "copy"
@@ -450,6 +480,10 @@ func run(c Case, dir string, res *lib.Result) (ret string) {
 	}
 	if c.Referrers {
 		opts = append(opts, regclient.ImageWithReferrers())
+		if c.RefTgt {
+			rt, _ := ref.New(w.tgtRef.Registry + "/" + w.tgtRepo + "-refs")
+			opts = append(opts, regclient.ImageWithReferrerTgt(rt))
+		}
 	}
 	if c.DigestTags {
 		opts = append(opts, regclient.ImageWithDigestTags())
@@ -740,7 +774,7 @@ func run(c Case, dir string, res *lib.Result) (ret string) {
 		if c.Referrers && c.Pair != "samerepo" {
 			for _, a := range w.g.Refs {
 				for d, n := range imgen.Closure(a, false) {
-					if b, ok := w.tgtHas(d); !ok || string(b) != string(n.Body) {
+					if b, ok := w.refHas(c, d); !ok || string(b) != string(n.Body) {
 						res.Fail("success-but-referrer-missing pair="+c.Pair, fmt.Sprintf("referrers requested but %s %s (referrer %s) is not at the target", n.Kind, d, short(a.Digest)), c)
 						break
 					}
@@ -753,6 +787,9 @@ func run(c Case, dir string, res *lib.Result) (ret string) {
 	// ---------- C04 ----------
 	if cerr != nil && tagAfter != tagBefore {
 		res.Fail("failure-moved-tag pair="+c.Pair, fmt.Sprintf("ImageCopy failed (%v) but the tag moved from %q to %q", cerr, tagBefore, tagAfter), c)
+	}
+	if c.RefTgt { // two target repositories: the write and fetch accounting below is per single target
+		return ""
 	}
 	written := map[string]bool{}
 	if w.tgtIsReg() {
@@ -1055,6 +1092,7 @@ func genCase(r *lib.Rand, focus string) Case {
 	if (c.Pair == "reg2dir" || c.Pair == "dir2dir") && r.Chance(40) {
 		c.DirPre = lib.Pick(r, []string{"blobs", "blobs", "all", "listed", "other"})
 	}
+	c.RefTgt = c.Referrers && (c.Pair == "regreg" || c.Pair == "samereg") && c.Seed%2 == 0
 	k := r.Intn(100)
 	faultShare := 25
 	if focus == "C04" {
@@ -1074,6 +1112,9 @@ func genCase(r *lib.Rand, focus string) Case {
 			c.Kind = "cancel"
 			c.CancelAt = 1 + r.Intn(25)
 		}
+	}
+	if c.Kind != "copy" || !c.Referrers {
+		c.RefTgt = false
 	}
 	return c
 }
